@@ -167,7 +167,11 @@ def run(ctx):
         fw = {l: {f: c / 1024.0 for f, c in fs.items()} for l, fs in iw.items()}
         col = rng.random() < 0.5
         case = {'work': fw, 'groups': groups, 'world': world, 'colocate': col}
-        res = real(fw, groups, world, col)
+        try:
+            res = real(fw, groups, world, col)
+        except Exception as e:  # noqa: BLE001
+            ctx.fail(f'greedy_assignment raised {type(e).__name__}: {e}', case, 'raised')
+            continue
         lines.append(f'greedy world={world} col={int(col)} groups={gen.natlists(groups)} work={gen.work_str(iw)}')
         pend.append((case, gen.assign_str(res)))
         ctx.case('f' + lines[-1], sample=None)
